@@ -203,7 +203,7 @@ PROPS["C12"] = {
 PROPS["C09"]["hx"] = [["c08"], ["c12"], ["c03"]]
 PROPS["C08"]["hx"] = [["c08"], ["c12"]]
 
-TRIVIA_RULE = ("ring 2 (`semi`): seeded statement pairs A;B - A one of 6 kinds with 0-2 trailing comments, the semicolon absent or present on A's line or on a line of its own below 0-2 comment lines, followed by 0-2 comments; B beginning with a parenthesis or not; LF and CRLF output - the bytes between A's last token and B must equal the rendering of Model/Semi.lean given the trailing trivia the formatter gives A alone. ring 2 (`trivia`): seeded leading-trivia sequences (blank lines, indentation, line comments with trailing blanks / interior CR / non-ASCII, block comments of level 0-2 with LF, CRLF and mixed interiors) in LF and CRLF files, formatted under both line_endings; the bytes the real formatter puts in front of the token must equal the model's rendering of load_token_trivia. distinct_nontrivial = requests with at least one comment. ")
+TRIVIA_RULE = ("ring 2 (`hangop`, `fieldkey`, `endtoken`, `punct`, `tablefield`, `callarg`, `sugar`): seeded programs with 0-2 comments (line, block, multi-line block) in each gap around a hung operator / a table field key and `=` / a closing token / the comma of a value list / the value of a table field / a call argument / the parentheses of a single-argument call, under tabs or 2-3-4-8 spaces, LF and CRLF output - the bytes the formatter prints there must equal the rendering of the corresponding Lean model. ring 2 (`semi`): seeded statement pairs A;B - A one of 6 kinds with 0-2 trailing comments, the semicolon absent or present on A's line or on a line of its own below 0-2 comment lines, followed by 0-2 comments; B beginning with a parenthesis or not; LF and CRLF output - the bytes between A's last token and B must equal the rendering of Model/Semi.lean given the trailing trivia the formatter gives A alone. ring 2 (`trivia`): seeded leading-trivia sequences (blank lines, indentation, line comments with trailing blanks / interior CR / non-ASCII, block comments of level 0-2 with LF, CRLF and mixed interiors) in LF and CRLF files, formatted under both line_endings; the bytes the real formatter puts in front of the token must equal the model's rendering of load_token_trivia. distinct_nontrivial = requests with at least one comment. ")
 
 PROPS["C03"] = {
     "lean_modules": ["StyluaModel.Props.C03"],
